@@ -199,6 +199,8 @@ def unpack_remb_fci(data: bytes) -> tuple[int, list[int]]:
     """
     if len(data) < 8 or data[0:4] != b"REMB":
         raise ValueError("Invalid REMB prefix")
+    if len(data) < 8 + 4 * data[4]:
+        raise ValueError("REMB SSRC list is truncated")
 
     exponent = (data[5] & 0xFC) >> 2
     mantissa = ((data[5] & 0x03) << 16) | (data[6] << 8) | data[7]
